@@ -421,6 +421,9 @@ func (tk *tokenizer) consumeUrl(pos Pos) (Token, Token) {
 				cs := tk.consumeEscape()
 				chunks.WriteRune(cs)
 				startPos = tk.pos
+			case c == '\\': // invalid escape: parse error, this is a bad url
+				tk.pos += w
+				goto badURL
 			default:
 				tk.pos += w
 				// http://drafts.csswg.org/csswg/css-syntax/#non-printable-character
@@ -451,8 +454,9 @@ func (tk *tokenizer) consumeUrl(pos Pos) (Token, Token) {
 badURL:
 	// http://drafts.csswg.org/csswg/css-syntax/#consume-the-remnants-of-a-bad-url0
 	for tk.pos < L {
-		if bytes.HasPrefix(tk.src[tk.pos:], []byte("\\)")) {
-			tk.pos += 2
+		if tk.src[tk.pos] == '\\' && !bytes.HasPrefix(tk.src[tk.pos:], []byte("\\\n")) {
+			tk.pos += 1
+			tk.consumeEscape() // valid escape: consume an escaped code point
 		} else if tk.src[tk.pos] == ')' {
 			tk.pos += 1
 			break
